@@ -126,13 +126,13 @@ func DefaultProxyProtocolTrustedProxies() []string {
 type Config struct { // TODO use https://github.com/projectdiscovery/yamldoc-go for generating output yaml and markdown for the docs
 	Bind string `yaml:"bind"` // The address to listen for connections.
 
-	OnlineMode                    bool `yaml:"onlineMode,omitempty" json:"onlineMode,omitempty"`                                       // Whether to enable online mode.
+	OnlineMode                    bool `yaml:"onlineMode" json:"onlineMode"`                                                           // Whether to enable online mode.
 	Auth                          Auth `yaml:"auth,omitempty" json:"auth,omitempty"`                                                   // Authentication settings.
 	OnlineModeKickExistingPlayers bool `yaml:"onlineModeKickExistingPlayers,omitempty" json:"onlineModeKickExistingPlayers,omitempty"` // Kicks existing players when a premium player with the same name joins.
 
-	Forwarding Forwarding `yaml:"forwarding,omitempty" json:"forwarding,omitempty"` // Player info forwarding settings.
-	Status     Status     `yaml:"status,omitempty" json:"status,omitempty"`         // Status response settings.
-	Query      Query      `yaml:"query,omitempty" json:"query,omitempty"`           // Query settings.
+	Forwarding Forwarding `yaml:"forwarding" json:"forwarding"` // Player info forwarding settings.
+	Status     Status     `yaml:"status" json:"status"`         // Status response settings.
+	Query      Query      `yaml:"query" json:"query"`           // Query settings.
 	// Whether the proxy should present itself as a
 	// Forge/FML-compatible server. By default, this is disabled.
 	AnnounceForge bool `yaml:"announceForge,omitempty" json:"announceForge,omitempty"`
@@ -140,14 +140,14 @@ type Config struct { // TODO use https://github.com/projectdiscovery/yamldoc-go 
 	Servers                              map[string]string `yaml:"servers,omitempty" json:"servers,omitempty"` // name:address
 	Try                                  []string          `yaml:"try,omitempty" json:"try,omitempty"`         // Try server names order
 	ForcedHosts                          ForcedHosts       `yaml:"forcedHosts,omitempty" json:"forcedHosts,omitempty"`
-	FailoverOnUnexpectedServerDisconnect bool              `yaml:"failoverOnUnexpectedServerDisconnect,omitempty" json:"failoverOnUnexpectedServerDisconnect,omitempty"`
+	FailoverOnUnexpectedServerDisconnect bool              `yaml:"failoverOnUnexpectedServerDisconnect" json:"failoverOnUnexpectedServerDisconnect"`
 
-	ConnectionTimeout configutil.Duration `yaml:"connectionTimeout,omitempty" json:"connectionTimeout,omitempty"` // Write timeout
-	ReadTimeout       configutil.Duration `yaml:"readTimeout,omitempty" json:"readTimeout,omitempty"`             // Read timeout
+	ConnectionTimeout configutil.Duration `yaml:"connectionTimeout" json:"connectionTimeout"` // Write timeout
+	ReadTimeout       configutil.Duration `yaml:"readTimeout" json:"readTimeout"`             // Read timeout
 
-	Quota                Quota         `yaml:"quota,omitempty" json:"quota,omitempty"`                 // Rate limiting settings
-	PacketLimiter        PacketLimiter `yaml:"packetLimiter,omitempty" json:"packetLimiter,omitempty"` // Per-connection serverbound packet rate limiting
-	Compression          Compression   `yaml:"compression,omitempty" json:"compression,omitempty"`
+	Quota                Quota         `yaml:"quota" json:"quota"`                 // Rate limiting settings
+	PacketLimiter        PacketLimiter `yaml:"packetLimiter" json:"packetLimiter"` // Per-connection serverbound packet rate limiting
+	Compression          Compression   `yaml:"compression" json:"compression"`
 	ProxyProtocol        bool          `yaml:"proxyProtocol,omitempty" json:"proxyProtocol,omitempty"`     // Enable HA-Proxy protocol mode
 	ProxyProtocolBackend bool          `yaml:"proxyProtocolBackend" json:"proxyProtocolBackend,omitempty"` // Enable HA-Proxy protocol mode for backend servers
 	// ProxyProtocolTrustedProxies lists the upstreams (IP addresses or CIDR
@@ -162,11 +162,11 @@ type Config struct { // TODO use https://github.com/projectdiscovery/yamldoc-go 
 	ShouldPreventClientProxyConnections bool `yaml:"shouldPreventClientProxyConnections" json:"shouldPreventClientProxyConnections,omitempty"` // Sends player IP to Mojang on login
 
 	AcceptTransfers                  bool `yaml:"acceptTransfers,omitempty" json:"acceptTransfers,omitempty"`                                   // Whether to accept transfers from other hosts via transfer packet
-	BungeePluginChannelEnabled       bool `yaml:"bungeePluginChannelEnabled,omitempty" json:"bungeePluginChannelEnabled,omitempty"`             // Whether to enable BungeeCord plugin messaging
-	BuiltinCommands                  bool `yaml:"builtinCommands,omitempty" json:"builtinCommands,omitempty"`                                   // Whether to enable builtin commands
+	BungeePluginChannelEnabled       bool `yaml:"bungeePluginChannelEnabled" json:"bungeePluginChannelEnabled"`                                 // Whether to enable BungeeCord plugin messaging
+	BuiltinCommands                  bool `yaml:"builtinCommands" json:"builtinCommands"`                                                       // Whether to enable builtin commands
 	RequireBuiltinCommandPermissions bool `yaml:"requireBuiltinCommandPermissions,omitempty" json:"requireBuiltinCommandPermissions,omitempty"` // Whether builtin commands require player permissions
-	AnnounceProxyCommands            bool `yaml:"announceProxyCommands,omitempty" json:"announceProxyCommands,omitempty"`                       // Whether to announce proxy commands to players
-	ForceKeyAuthentication           bool `yaml:"forceKeyAuthentication,omitempty" json:"forceKeyAuthentication,omitempty"`                     // Added in 1.19
+	AnnounceProxyCommands            bool `yaml:"announceProxyCommands" json:"announceProxyCommands"`                                           // Whether to announce proxy commands to players
+	ForceKeyAuthentication           bool `yaml:"forceKeyAuthentication" json:"forceKeyAuthentication"`                                         // Added in 1.19
 
 	Debug          bool                      `yaml:"debug,omitempty" json:"debug,omitempty"` // Enable debug mode
 	ShutdownReason *configutil.TextComponent `yaml:"shutdownReason,omitempty" json:"shutdownReason,omitempty"`
